@@ -13,6 +13,8 @@
    465c459f "input: an input following one that failed to open was decoded twice" and
    c7862ea9 "raw input of empty input should output nothing"; the behaviour before the fixes is
    kept below as `loopOld` / `rawLinesOld`, for the negation witnesses in Props/C17.lean)
+    pkg/interp/binary.go:213-300  `_open` on the facts the OS reports about a path (`OsFile`, `openModel`); `loopO` = the input
+                                  loop with the third outcome of `open` (a binary that cannot be used: init.jq:43 is then true)
     pkg/interp/internal.jq:29, 39-43, 92-100   `_fatal_error`, `_exit_code_*`, `_finally`
     pkg/interp/interp.go:377-439  `Main` (halt error ⇒ returned, exit code from `Exiter`)
     pkg/cli/cli.go:273-280        exit status 0 / `ExitCode()` / 1
@@ -442,6 +444,108 @@ def loopOld {C V Out} (env : Env C V Out) (re : V → V) : List Str → List Str
       | none => loopOld env re t pend { st with dec := true, errs := st.errs ++ [.dec h] }
       | some v => loopOld env re t [] (evalOne env (redecodeAll re pend v) st)
 
+/-! ## `open` (pkg/interp/binary.go:213-300 `_open`) on what the operating system reports about a path
+
+  The virtual OS of the correspondence run decides by construction which paths open.  On a REAL file system the kinds of
+  path are not the harness' to decide: a directory opens fine with os.Open and is even seekable (ext4/overlayfs answer
+  `lseek(fd, 0, SEEK_END)` with 2^63-1), /dev/null is a seekable character device, a procfs file is "regular" with stat size
+  0 and refuses SEEK_END (read into memory since /repo commit 013f25c7).  `OsFile` is what os.Open / Stat / Seek / ReadAll say about one path — the harness MEASURES these
+  with the same calls on the real file — and `openModel` is `_open` on them. -/
+
+structure OsFile where
+  opens : Bool              -- `i.OS.FS().Open(path)` succeeds (binary.go:233; cmd/fq: os.Open, cli.go:179)
+  regular : Bool            -- `fFI.Mode().IsRegular()` (:257)
+  seekable : Bool           -- `f.(io.ReadSeeker)` (:258): true of every *os.File
+  statSize : Nat            -- `fFI.Size()` (:260)
+  seekEnd : Option Nat      -- what `Seek(0, io.SeekEnd)` answers; none = error (procfs seq files: EINVAL, fifos: ESPIPE)
+  readAll : Option Nat      -- number of bytes `io.ReadAll(f)` returns (:265); none = error (a directory: EISDIR)
+deriving Repr, DecidableEq, Inhabited
+
+inductive OpenRes
+  | err                     -- `open` raises: init.jq:35-41 reports `error: NAME: …` and remembers the io class
+  | file (bytes : Nat)      -- a binary of that many bytes
+  | ghost                   -- `open` returns a binary every later use of which fails (its reader cannot Seek to the end, or
+                            -- its bit length is not a valid int64): converting it to a jq value yields an error, gojq's
+                            -- `.opened == null` (init.jq:43) is then TRUE, and `input` moves on to the next file as if
+                            -- `open` had failed — but nothing was reported and nothing remembered
+deriving Repr, DecidableEq, Inhabited
+
+/-- binary.go:229-301 as of /repo commit 013f25c7.  A regular file of POSITIVE stat size that is a ReadSeeker is used in
+    place with the size Stat reports (:258-263); everything else — non-regular files, and regular files that report size
+    zero (procfs) — is read into memory (:266-274), which is where a directory fails.  The range of the binary is
+    `bEnd * 8` bits (:298) and every read goes through readers that seek to the end first (aheadreadseeker / bitio
+    section readers), so a file used in place must answer Seek(0, SeekEnd). -/
+def openModel (f : OsFile) : OpenRes :=
+  if !f.opens then .err                                               -- :233-241
+  else if f.regular && decide (0 < f.statSize) && f.seekable then     -- :258-259
+    (if f.seekEnd.isSome then .file f.statSize else .ghost)           -- :260-262 (ghost: no such file is known, `open_never_ghost`)
+  else match f.readAll with                                           -- :266-274
+    | none => .err
+    | some n => .file n
+
+/-- BEFORE commit 013f25c7 (finding `procfs-input-silently-dropped`, fixed): every regular ReadSeeker was used in place, also
+    one that reports size zero and refuses SEEK_END — the seq files of procfs -/
+def openModelOld (f : OsFile) : OpenRes :=
+  if !f.opens then .err
+  else if f.regular && f.seekable then
+    (if f.seekEnd.isSome then .file f.statSize else .ghost)
+  else match f.readAll with
+    | none => .err
+    | some n => .file n
+
+/-- the seeded variant S5-C17-1: "a seekable non-regular file is asked for its size with Seek(0, SeekEnd)" — for a directory
+    on ext4 that is 2^63-1 bytes, whose bit length overflows int64 -/
+def openSeeded (f : OsFile) : OpenRes :=
+  if !f.opens then .err
+  else if f.seekable then
+    if f.regular then
+      (if 0 < f.statSize then (if f.seekEnd.isSome then .file f.statSize else .ghost)
+       else (match f.readAll with | none => .err | some n => .file n))
+    else match f.seekEnd with
+      | some e =>
+        if e > 0 then (if e * 8 < 2 ^ 63 then .file e else .ghost)
+        else (match f.readAll with | none => .err | some n => .file n)
+      | none => (match f.readAll with | none => .err | some n => .file n)
+  else match f.readAll with
+    | none => .err
+    | some n => .file n
+
+/-- a directory as ext4 / overlayfs present it -/
+def osDirExt4 : OsFile := { opens := true, regular := false, seekable := true, statSize := 4096, seekEnd := some (2 ^ 63 - 1), readAll := none }
+/-- /dev/null -/
+def osDevNull : OsFile := { opens := true, regular := false, seekable := true, statSize := 0, seekEnd := some 0, readAll := some 0 }
+/-- /proc/version and the other seq files of procfs -/
+def osProcSeq : OsFile := { opens := true, regular := true, seekable := true, statSize := 0, seekEnd := none, readAll := some 123 }
+/-- a path that does not exist, is not permitted, loops … -/
+def osNoOpen : OsFile := { opens := false, regular := false, seekable := false, statSize := 0, seekEnd := none, readAll := none }
+
+/-! ### the input loop with the three outcomes of `open` (init.jq:20-59) -/
+
+inductive OpenO (C : Type)
+  | err
+  | ok (c : C)
+  | ghost
+
+structure EnvO (Content V Out : Type) where
+  openO : Str → OpenO Content
+  decode : Content → Option V
+  eval : V → List Out × Bool
+
+/-- the environment `loop` sees when no input is a ghost: `open` raises or returns a usable binary -/
+def EnvO.toEnv {C V Out} (e : EnvO C V Out) : Env C V Out :=
+  { openF := fun n => match e.openO n with | .ok c => some c | _ => none, decode := e.decode, eval := e.eval }
+
+def loopO {C V Out} (env : EnvO C V Out) : List Str → St Out → St Out
+  | [], st => st
+  | h :: t, st =>
+    match env.openO h with
+    | .err => loopO env t { st with io := true, errs := st.errs ++ [.io h] }         -- init.jq:35-41, then :43-45
+    | .ghost => loopO env t st                                                        -- :43-45 ALONE: `.opened == null` is true
+    | .ok c =>
+      match env.decode c with
+      | none => loopO env t { st with dec := true, errs := st.errs ++ [.dec h] }
+      | some v => loopO env t (evalOne env.toEnv v st)
+
 /-! ## raw input (init.jq:63-105 `_input_string`) at the level of strings -/
 
 /-- `rtrimstr("\n")` -/
@@ -474,6 +578,57 @@ def jqRawLines (chunks : List Str) : List Str :=
 def rawLinesOld (chunks : List Str) : List Str :=
   if chunks.isEmpty then [] else splitNl (rtrimNl chunks.flatten)
 
+/-! ### raw input over any alphabet — the correspondence run works on BYTES
+
+  fq's strings are Go strings: `tobytes | tostring` (init.jq:76) keeps every byte of the file, valid UTF-8 or not,
+  `join("")` (:80, :92) concatenates bytes, `rtrimstr("\n")` (:93) and `split("\n")` (:94) cut at the byte 0x0a, which in
+  UTF-8 never occurs inside another code point.  So the splitter is the same function over bytes as over code points;
+  it is written once for an arbitrary alphabet `α` with a distinguished separator `nl`, the `raw` case lines of the
+  correspondence run instantiate it with `UInt8` and 10, `rawLines` above is the instance `Char`, `'\n'`
+  (`Props.C17.rawLines_eq_generic`).  jq splits on `\n` ONLY: `\r`, `\r\n`, U+2028, U+0085, NUL, invalid UTF-8 are
+  ordinary content. -/
+
+/-- `rtrimstr("\n")` (init.jq:93): ONE trailing separator is removed -/
+def rtrimSep {α} [DecidableEq α] (nl : α) (s : List α) : List α :=
+  match s.reverse with
+  | c :: r => if c = nl then r.reverse else s
+  | [] => s
+
+/-- `split("\n")` (init.jq:94) -/
+def splitSep {α} [DecidableEq α] (nl : α) : List α → List (List α)
+  | [] => [[]]
+  | c :: cs =>
+    if c = nl then [] :: splitSep nl cs
+    else match splitSep nl cs with
+      | [] => [[c]]
+      | l :: ls => (c :: l) :: ls
+
+/-- init.jq:81-99 (`-R` without `-s`): the values `input` yields -/
+def rawLinesG {α} [DecidableEq α] (nl : α) (chunks : List (List α)) : List (List α) :=
+  if chunks.flatten.isEmpty then [] else splitSep nl (rtrimSep nl chunks.flatten)
+
+/-- init.jq:73-80 (`-Rs`): ONE value, the whole text (also when it is empty) -/
+def rawSlurpG {α} (chunks : List (List α)) : List α := chunks.flatten
+
+/-- does the text end with the separator? -/
+def endsSep {α} [DecidableEq α] (nl : α) (s : List α) : Bool := decide (s.getLast? = some nl)
+
+/-- what `-R` owes `-Rs` (jq): joining the values with the separator, plus one final separator iff the text ends with
+    one, gives the text back -/
+def rawJoin {α} [DecidableEq α] (nl : α) (text : List α) (ls : List (List α)) : List α :=
+  [nl].intercalate ls ++ (if endsSep nl text then [nl] else [])
+
+/-- the judgement the driver evaluates on the OBSERVED values of a `-R` run against the OBSERVED string of the `-Rs` run
+    on the same inputs (nothing of the model's prediction enters): no value contains the separator, the values joined
+    reproduce the text, and an empty text (only) has no value.  `Props.C17.raw_judge_iff`: it holds for exactly one list
+    of values, jq's. -/
+def rawJudge {α} [DecidableEq α] (nl : α) (text : List α) (ls : List (List α)) : Bool :=
+  ls.all (fun l => !l.contains nl) && decide (rawJoin nl text ls = text) && (ls.isEmpty == text.isEmpty)
+
+/-- the seeded variant S5-C17-2 (`| map(rtrimstr("\r"))` after the split): "support for \r\n line endings" -/
+def rawLinesCRLF {α} [DecidableEq α] (nl cr : α) (chunks : List (List α)) : List (List α) :=
+  (rawLinesG nl chunks).map (rtrimSep cr)
+
 /-! ## `_opt_eval` and `_main` at the level the correspondence run observes -/
 
 inductive FKind
@@ -482,9 +637,21 @@ inductive FKind
   | bin       -- mp3/png, decodable by probe
   | undec     -- bytes no probed format accepts
   | missing
-  | dir
+  | dir       -- `open` (os.Open) succeeds, reading fails (EISDIR): binary.go:262-273 reads a non-regular file into memory
   | unknown   -- the harness does not vouch for it as data
+  | empty     -- readable, zero bytes (an empty regular file, /dev/null): no probed format accepts it, `-R` gets no text
+  | noopen    -- `open` fails for another reason (EACCES, ELOOP, ENOTDIR …): binary.go:233-241
+  | ghost     -- `openModel` = ghost: skipped without a report (before /repo 013f25c7 the procfs seq files; none known now)
 deriving DecidableEq, Repr, Inhabited
+
+/-- does the kind the harness states for a path of the real file system agree with `openModel` on the measured `OsFile`? -/
+def kindAgrees (fk : FKind) (o : OsFile) : Bool :=
+  if fk = .unknown then true else       -- no kind stated (program files): the model never uses it as input data
+  match openModel o with
+  | .err => fk = .missing || fk = .dir || fk = .noopen
+  | .ghost => fk = .ghost
+  | .file 0 => fk = .empty
+  | .file (_ + 1) => fk = .jobj || fk = .jnum || fk = .bin || fk = .undec
 
 inductive PClass
   | ok        -- compiles, never raises, writes at least one byte per input
@@ -565,9 +732,9 @@ inductive Fatal
 deriving Repr, DecidableEq
 
 def readable : FKind → Option Bool
-  | .jobj | .jnum | .bin | .undec => some true
-  | .missing | .dir => some false
-  | .unknown => none
+  | .jobj | .jnum | .bin | .undec | .empty => some true
+  | .missing | .dir | .noopen => some false
+  | .unknown | .ghost => none     -- a ghost anywhere but among the input files is outside the model
 
 /-! ### options as JSON values: `_opt_build_default_fixed + $parsed_args + (-o …) | . + _opt_eval($rest)` (init.jq:188-195)
 
@@ -907,11 +1074,13 @@ structure Pred where
 deriving Repr
 
 /-- class-level environment: contents are file kinds, values are value classes -/
+def World.kindOf (w : World) (stdin : FKind) (n : Str) : FKind :=
+  if n = "<stdin>".toList then stdin else match w.tok n with | some tk => tk.fk | none => .unknown
+
 def classEnv (w : World) (fmt : FmtKind) (pc : PClass) (stdin : FKind) : Env FKind VClass Unit where
   openF := fun n =>
-    let fk := if n = "<stdin>".toList then stdin else match w.tok n with | some tk => tk.fk | none => .unknown
-    match fk with
-    | .missing | .dir => none
+    match w.kindOf stdin n with
+    | .missing | .dir | .noopen | .ghost => none     -- (ghosts never get here: `runBody` drops them first)
     | k => some k
   decode := fun k =>
     match fmt with
@@ -934,7 +1103,7 @@ def argdecodeFails (w : World) (fmt : FmtKind) : List (Str × Src) → Except Un
     match w.tok f with
     | none => .error (.mk "no world entry for argdecode path")
     | some tk =>
-      if tk.fk = .unknown then .error (.mk "argdecode of unknown kind")
+      if tk.fk = .unknown || tk.fk = .ghost then .error (.mk "argdecode of unknown kind")
       else
         let e := classEnv w fmt PClass.ok w.stdin
         match (e.openF f).bind e.decode with
@@ -977,6 +1146,12 @@ def fmtOf (w : World) (o : Opts) : Except Unmodelled FmtKind :=
   | some tk => .ok tk.fmt
   | none => if o.decodeGroup = "probe".toList then .ok FmtKind.probe else .error (.mk "no world entry for decode group")
 
+/-- is the concatenated text of the readable inputs non-empty (init.jq:89)?  Every readable kind but `.empty` has bytes -/
+def hasText (w : World) (names : List Str) : Bool :=
+  names.any (fun n => match w.kindOf w.stdin n with
+    | .jobj | .jnum | .bin | .undec => true
+    | _ => false)
+
 /-- init.jq:243-288: compile the program, read the inputs, run, map the error memory to the status -/
 def runBody (c : Codes) (w : World) (o : Opts) (fmt : FmtKind) : Except Unmodelled Pred := do
       -- program class
@@ -992,7 +1167,9 @@ def runBody (c : Codes) (w : World) (o : Opts) (fmt : FmtKind) : Except Unmodell
       if pc = .unknown then throw (.mk "program of unknown class")
       if pc = .nc && !o.repl then                                            -- :137-141 halts before any input
         return { exit := c.compile, errs := [], fatal := true, defaultMode := false, files := [] }
-      let names := o.filenames.map nameOf
+      -- `Props.C17.ghost_input_is_absent`: an input whose `open` is a ghost leaves no trace in any mode — the loop runs
+      -- as if the name were not in the list (the LIST: a ghost that is the only file does not make fq read stdin)
+      let names := (o.filenames.map nameOf).filter (fun n => w.kindOf w.stdin n != .ghost)
       -- unknown file kinds are outside the model
       for n in names do
         if n ≠ "<stdin>".toList then
@@ -1008,8 +1185,8 @@ def runBody (c : Codes) (w : World) (o : Opts) (fmt : FmtKind) : Except Unmodell
         let (st, vals) : St Unit × List VClass :=
           if o.nullInput then ({}, [.null])
           else if o.stringInput then
-            let (st, vs) := collect rawEnv names ({} : St Unit) []
-            (st, if o.slurp then [.str] else (if vs.isEmpty then [] else [.str]))
+            let (st, _) := collect rawEnv names ({} : St Unit) []
+            (st, if o.slurp then [.str] else (if hasText w names then [.str] else []))
           else if o.slurp then ((collect env names ({} : St Unit) []).1, [.arr])
           else collect env names ({} : St Unit) []
         if pc = .nc && !vals.isEmpty then
@@ -1022,9 +1199,9 @@ def runBody (c : Codes) (w : World) (o : Opts) (fmt : FmtKind) : Except Unmodell
       else if o.stringInput then                                             -- :268, init.jq:63-105
         -- every file is read raw first (`tobytes | tostring` never fails), then the lines are fed
         let rawEnv : Env FKind VClass Unit := { env with decode := fun _ => some .str }
-        let (st, vs) := collect rawEnv names ({} : St Unit) []
-        -- ≥ 1 line iff the concatenated text is not empty (:89); no readable file kind of the harness is empty
-        let ninputs := if o.slurp then 1 else (if vs.isEmpty then 0 else 1)
+        let (st, _) := collect rawEnv names ({} : St Unit) []
+        -- ≥ 1 line iff the concatenated text is not empty (:89): some readable input has at least one byte
+        let ninputs := if o.slurp then 1 else (if hasText w names then 1 else 0)
         let st := if ninputs = 0 then st else evalOne env VClass.str st
         return { exit := st.exit c, errs := st.errs, fatal := false, defaultMode := false, files := [] }
       else if o.slurp then                                                   -- :269 `[inputs]`
